@@ -10,7 +10,9 @@ export CARGO_NET_OFFLINE=true
 export RUST_BACKTRACE=0 RUST_LIB_BACKTRACE=0
 LOG=/verif/harness/target/build-$ID.log
 mkdir -p /verif/harness/target
-if ! cargo build --release --offline -p vcheck >"$LOG" 2>&1; then
+EXTRA=""
+[ "$ID" = "C18" ] && EXTRA="-p fs_nowat"
+if ! { cargo build --release --offline -p vcheck >"$LOG" 2>&1 && { [ -z "$EXTRA" ] || cargo build --release --offline $EXTRA >>"$LOG" 2>&1; }; }; then
   echo "BUILD-FAILED (harness or /repo does not compile); see $LOG"
   tail -30 "$LOG"
   exit 2
